@@ -60,7 +60,7 @@ class MapNew(OpSpec):
             # building a chart from items is ordinary documented usage; attribute to C16 (construction)
             unexpected(out, "C16", "I3.map.new", f"building a {game} chart from items", res)
             return out
-        out.new.append((op["out"], "map", res.value, None, game, dict(keys=op.get("keys", 4))))
+        out.new.append((op["out"], "map", res.value, None, game, dict(keys=op.get("keys", 4), **({"layout": op["layout"]} if op.get("layout") else {}))))
         out.note = ("map.new", game, tuple((k, len(v)) for k, v in sorted(op.get("lists", {}).items())))
         return out
 
